@@ -12,7 +12,7 @@ class C06(Prop):
     lean_modules = ['RSocketModel.Props.C06']
     technique = 'Lean 4 proof (credit-accounting invariant over all interleavings of credit arrival, production and delivery; measure-based delivery) + differential correspondence per source'
     level_text = ('c06_never_exceeds, c06_order, c06_stalls_without_credit (every interleaving of request/produce/feed events), c06_delivers_all / c06_single_credit_delivers and '
-                  'c06_credit_forwarded_exact (engine) are kernel-checked on a model of the credit queue + producer/feeder tasks shared by the four library sources; the model is compared with '
+                  'c06_credit_forwarded_exact, c06_channel_credit_forwarded and c06_credit_after_peer_completed (engine: a REQUEST_N for a channel reaches the local publisher with its exact value in every state of the channel, also after the peer completed its own direction) are kernel-checked on a model of the credit queue + producer/feeder tasks shared by the four library sources; the model is compared with '
                   'each real source at quiescence points, and every delivery is judged against the credit received at that instant; the sources are also run behind a real responder. '
                   'c06_collector_requests_exactly_limit, c06_collector_credit_window (1 <= outstanding credit <= limit rate while elements arrive) and c06_collector_cancels_at_count are kernel-checked on a model of CollectorSubscriber '
                   '(the requester behind AwaitableRSocket), compared with the real class directly and through AwaitableRSocket.request_stream / request_channel on a real client (REQUEST_N / CANCEL frames on the wire).')
